@@ -310,10 +310,12 @@ def r02g(R):
         # the flag: a local assigned from a comparison with '-'
         flags = []
         for n in cfg.nodes:
+            # flag = <...> == '-', possibly conjoined with a token-class test
             if n.kind == 'stmt' and isinstance(n.ast, ast.Assign) \
-                    and isinstance(n.ast.value, ast.Compare) \
-                    and any(isinstance(c, ast.Constant) and c.value == '-'
-                            for c in n.ast.value.comparators):
+                    and isinstance(n.ast.targets[0], ast.Name) \
+                    and any(isinstance(x, ast.Compare) and any(
+                        isinstance(c, ast.Constant) and c.value == '-'
+                        for c in x.comparators) for x in ast.walk(n.ast.value)):
                 flags.append(n.ast.targets[0].id)
         if not flags:
             raise AnalysisError('%s: unary-minus flag not found' % f.short)
@@ -378,8 +380,17 @@ def r02g(R):
                  and n.ast.targets[0].id == flag]
         nxt = [m for s0 in start for m, _l in s0.succs]
         from ..cfg import find_path_sensitive
+        # flag = a and b and <text is '-'>: the flag being true makes every
+        # conjunct true
+        assume = {flag: True}
+        for s0 in start:
+            v = s0.ast.value
+            if isinstance(v, ast.BoolOp) and isinstance(v.op, ast.And):
+                for x in v.values:
+                    if isinstance(x, ast.Name):
+                        assume[x.id] = True
         p = find_path_sensitive(cfg, nxt, succ_ok, avoid=negset,
-                                assume={flag: True}, decide=decide,
+                                assume=assume, decide=decide,
                                 on_node=on_node)
         R.check(f, 'unary minus flag `%s`' % flag,
                 p is None and bool(neg_nodes),
